@@ -29,7 +29,7 @@ VARIABLES m, ci, sc, nd, nw, ns,
 vars == <<m, ci, sc, nd, nw, ns, bad>>
 
 -----------------------------------------------------------------------------
-BaseCfg == [feePos |-> 0, feeNeg |-> 0, feeRecv |-> 5, impPos |-> 0, impNeg |-> 0, impExp |-> 1,
+BaseCfg == [feePos |-> 0, feeNeg |-> 0, feeRecv |-> 5, feeDisc |-> -1, impPos |-> 0, impNeg |-> 0, impExp |-> 1,
             div |-> 1, maxPool |-> 70, maxPoolValue |-> 1400, reserveFactor |-> 10,
             pnlDeposit |-> 6, pnlWithdrawal |-> 3, borrowRecv |-> 4, skipSmaller |-> TRUE]
 MkCfg(fp, fn, ip, in, ie) ==
@@ -37,7 +37,9 @@ MkCfg(fp, fn, ip, in, ie) ==
 Cfgs == << MkCfg(0, 0, 0, 0, 1), MkCfg(1, 2, 1, 2, 1), MkCfg(0, 0, 1, 2, 2), MkCfg(1, 2, 2, 2, 2),
            MkCfg(0, 0, 2, 2, 1), MkCfg(1, 2, 0, 0, 1), MkCfg(0, 0, 1, 2, 1), MkCfg(1, 2, 1, 2, 2),
            MkCfg(1, 2, 2, 2, 1), MkCfg(0, 0, 2, 2, 2),
-           [MkCfg(1, 2, 1, 2, 2) EXCEPT !.div = 2], [MkCfg(0, 0, 3, 2, 1) EXCEPT !.div = 3] >>
+           [MkCfg(1, 2, 1, 2, 2) EXCEPT !.div = 2], [MkCfg(0, 0, 3, 2, 1) EXCEPT !.div = 3],
+           (* swap fee discount factor: 30 %, 100 % (13, 14) *)
+           [MkCfg(1, 2, 1, 2, 1) EXCEPT !.feeDisc = 3], [MkCfg(2, 2, 2, 2, 1) EXCEPT !.feeDisc = 10] >>
 
 P(a, b) == [min |-> a, max |-> b]
 Pr(i, l, s) == [idx |-> i, long |-> l, short |-> s]
